@@ -856,6 +856,62 @@ def r4(F, R):
     R.floor("C14-R4", 12)
 
 
+def r14(F, R):
+    R.rule("C14-R14", "what was recorded comes back as recorded: (a) ArrowBuilder::append_value - the function that stores a *present* value - never appends a null "
+                      "(append_null / append_option / append_nulls): an empty string or a zero is a value, not a missing one; (b) the ndarray backend allocates "
+                      "exactly hint_num_tune() + hint_num_draws() rows along the draw axis - no max / min / rounding of that extent, so an empty run has no rows")
+    feats = ([c for c in F.crates if c["name"] == "nuts_rs"] or [{}])[0].get("features") or []
+    n = 0
+    if "arrow" in feats:
+        bs = [b for b in F.inherent_methods("ArrowBuilder", "append_value")]
+        if not bs:
+            R.missing("C14-R14", "ArrowBuilder::append_value")
+        for b in bs:
+            n += 1
+            group = [b] + K.all_closures_of(F, b.path)
+            nulls = [(x, t) for x in group for _bb, t in x.calls() if t["callee"].get("name") in ("append_null", "append_nulls", "append_option")]
+            site = "%s @%s" % (b.path, b.loc())
+            if nulls:
+                R.bad("C14-R14", "ArrowBuilder::append_value:null-for-value", "%s @%s" % (nulls[0][0].path, loc(nulls[0][1]["span"])),
+                      "a present value is stored through `%s`: some recorded values come back as null (not recorded)" % nulls[0][1]["callee"]["name"])
+            else:
+                R.ok("C14-R14", "ArrowBuilder::append_value:null-for-value", site, "present values are appended as values (no null-producing builder call)")
+    if "ndarray" in feats:
+        bs = [b for b in F.trait_method_impls("StorageConfig", "new_trace") if "ndarray" in b.path]
+        if not bs:
+            R.missing("C14-R14", "NdarrayConfig::new_trace")
+        for b in bs:
+            n += 1
+            site = "%s @%s" % (b.path, b.loc())
+            ext = []
+            for bi, blk in enumerate(b.blocks):
+                if blk["cleanup"]:
+                    continue
+                for st in blk["stmts"]:
+                    if st["k"] == "assign" and st["rv"]["k"] == "agg" and st["rv"].get("ak") == "array" and len(st["rv"]["ops"]) == 2:
+                        v1 = b.value(st["rv"]["ops"][1])
+                        s1 = vt_str(v1)
+                        if "hint_num_tune" in s1 or "hint_num_draws" in s1:
+                            ext.append((st, v1))
+            if not ext:
+                R.bad("C14-R14", "ndarray:draw-extent", site, "cannot find the [n_chains, total_draws] shape of the arrays")
+                continue
+            bad = None
+            for (st, v1) in ext:
+                calls = [strip_generics(x[1]).split("::")[-1] for x in vt_walk(v1) if x[0] == "call"]
+                extra = [c for c in calls if c not in ("hint_num_tune", "hint_num_draws")]
+                s1 = vt_str(v1)
+                if extra or not ("hint_num_tune" in s1 and "hint_num_draws" in s1):
+                    bad = (st, s1, extra)
+            if bad:
+                R.bad("C14-R14", "ndarray:draw-extent", "%s @%s" % (b.path, loc(bad[0]["span"])), "the draw axis is allocated with %s (extra operations %s), not exactly "
+                      "num_tune + num_draws rows: rows that no chain recorded appear in the trace" % (bad[1][:80], bad[2]))
+            else:
+                R.ok("C14-R14", "ndarray:draw-extent", site, "draw axis = hint_num_tune() + hint_num_draws() (%d array shapes)" % len(ext))
+    if n == 0:
+        R.info("C14-R14", "neither the arrow nor the ndarray backend is compiled in this configuration")
+
+
 def _phase_flag(b):
     """The remembered phase flag of a backend: the bool field of self that record_sample clears (`self.flag = false`)."""
     for bi, blk in enumerate(b.blocks):
@@ -1088,6 +1144,7 @@ def run(F, R, config="all"):
     r9(F, R, P)
     r10(F, R)
     r13(F, R)
+    r14(F, R)
     # a write whose failure is dropped leaves fill values where recorded draws should be, without an error: no unread Result in the backends
     from . import c13
     def _storage_only(sub):
